@@ -901,7 +901,6 @@ func sameStructValue(a, b ssa.Value) bool {
 	return ok1 && ok2 && la.X == lb.X
 }
 
-
 // c16AbsentSourceStaysAbsent is R8. See the Explanation.
 func c16AbsentSourceStaysAbsent(c *Ctx) {
 	isSourceIface := func(t types.Type) bool {
